@@ -125,7 +125,7 @@ func load(dir, pkgPath string, overlay map[string][]byte) (*World, error) {
 func (w *World) runPath(solver *Solver, fn *ssa.Function, dec []int, wantModel bool) (pr pathResult) {
 	e := &Exec{w: w, prog: w.prog, solver: solver, decisions: dec, maxSteps: w.cfg.MaxSteps,
 		funcs: map[*ssa.Function]bool{}, symCount: map[string]int{}, globals: map[*ssa.Global]*Cell{},
-		builders: map[string]StrV{}, mutexes: map[string]*mutexState{}, onces: map[string]*onceState{},
+		builders: map[string]StrV{}, mutexes: map[string]*mutexState{}, conds: map[string]*condState{}, onces: map[string]*onceState{},
 		wgs: map[string]*wgState{}, mapOrderFn: map[string]bool{}, appendCapFn: map[string]bool{}, reached: map[string]bool{},
 		nativeObjs: map[string]Value{}, raceOn: true}
 	e.initThreads(w.cfg.MaxPreempt)
